@@ -3,15 +3,20 @@
 package main
 
 import (
+	"strings"
+
 	"encoding/json"
 	"flag"
 	"fmt"
+	"golang.org/x/tools/go/ssa"
 	"os"
 	"path/filepath"
 	"sort"
 	"strconv"
 	"time"
 )
+
+var touchReport func()
 
 func main() {
 	prop := flag.String("prop", "", "property id (C01..C20), or 'all'")
@@ -100,6 +105,36 @@ func main() {
 		sort.Strings(props)
 	}
 	exit := 0
+	if os.Getenv("PSLINT_TOUCH") != "" {
+		touchLog = map[*ssa.Function]map[string]bool{}
+		touchReport = func() {
+			// rules that look at more than a third of all functions are scans
+			count := map[string]int{}
+			for _, rs := range touchLog {
+				for r := range rs {
+					count[r]++
+				}
+			}
+			var lines []string
+			for _, fn := range w.Funcs {
+				if isTestFunc(w, fn) || len(fn.Blocks) == 0 {
+					continue
+				}
+				var specific []string
+				for r := range touchLog[fn] {
+					if count[r]*3 < len(w.Funcs) {
+						specific = append(specific, r)
+					}
+				}
+				sort.Strings(specific)
+				lines = append(lines, fmt.Sprintf("TOUCH %2d %-60s %s", len(specific), w.FuncKey(fn), strings.Join(specific, " ")))
+			}
+			sort.Strings(lines)
+			for _, l := range lines {
+				fmt.Println(l)
+			}
+		}
+	}
 	for _, p := range props {
 		if _, ok := propRules[p]; !ok {
 			fmt.Fprintf(os.Stderr, "pslint: unknown property %s\n", p)
@@ -137,6 +172,9 @@ func main() {
 		if rc := report(w, *verif, p, *tier, seed, res, wall, extra); rc != 0 {
 			exit = rc
 		}
+	}
+	if touchReport != nil {
+		touchReport()
 	}
 	os.Exit(exit)
 }
